@@ -68,13 +68,14 @@ type world struct {
 	base    int // index of the root the live trie was opened from / last committed to (-1 = none)
 	limit   uint16
 	pool    [][]byte // proof blobs seen so far (for node substitution)
+	known   map[common.Hash]bool // hashes the Lean Database model currently has in memory
 	// statistics
 	maxSize    int
 	effDeletes int
 }
 
 func newWorld(secure bool) *world {
-	w := &world{secure: secure, content: map[string][]byte{}, base: -1}
+	w := &world{secure: secure, content: map[string][]byte{}, base: -1, known: map[common.Hash]bool{}}
 	w.disk = youdb.NewMemDatabase()
 	w.db = trie.NewDatabase(w.disk)
 	w.open(common.Hash{})
@@ -224,12 +225,18 @@ func (r *runner) runSeq(lines []string) (fail *seqFail, w *world, err error) {
 			if _, e := r.ask("RESET"); e != nil {
 				return nil, w, e
 			}
+			if _, e := r.ask("DBRESET"); e != nil {
+				return nil, w, e
+			}
 		}
 		r.dist("op-" + f[0])
 		switch f[0] {
 		case "RESET", "MODE":
 			w = newWorld(f[0] == "MODE" && len(f) > 1 && f[1] == "sec")
 			if _, e := r.ask("RESET"); e != nil {
+				return nil, w, e
+			}
+			if _, e := r.ask("DBRESET"); e != nil {
 				return nil, w, e
 			}
 		case "U", "D":
@@ -511,10 +518,16 @@ func (r *runner) runSeq(lines []string) (fail *seqFail, w *world, err error) {
 				w.roots = append(w.roots, &rootRec{hash: root, snap: copyMap(w.hashedContent())})
 				idx = len(w.roots) - 1
 			}
+			if fl, e := r.dbSync(w, i, lines[i], ""); fl != nil || e != nil {
+				return fl, w, e
+			}
 			// the live trie's base stays referenced (what core/blockchain.go does for every block root)
 			w.db.Reference(root, common.Hash{})
 			w.roots[idx].refs++
 			w.base = idx
+			if fl, e := r.dbSync(w, i, lines[i], "DBREF "+hx(root.Bytes())); fl != nil || e != nil {
+				return fl, w, e
+			}
 		case "REF", "DEREF", "DBC", "R", "RF":
 			if len(w.roots) == 0 {
 				r.dist("skipped-no-root")
@@ -531,6 +544,9 @@ func (r *runner) runSeq(lines []string) (fail *seqFail, w *world, err error) {
 				}
 				w.db.Reference(rr.hash, common.Hash{})
 				rr.refs++
+				if fl, e := r.dbSync(w, i, lines[i], "DBREF "+hx(rr.hash.Bytes())); fl != nil || e != nil {
+					return fl, w, e
+				}
 			case "DEREF":
 				// the contract of Dereference: it releases an earlier Reference; the live trie's base keeps one
 				if rr.refs == 0 || (idx == w.base && rr.refs == 1 && !rr.persisted) {
@@ -542,6 +558,9 @@ func (r *runner) runSeq(lines []string) (fail *seqFail, w *world, err error) {
 					return mkfail("crash", i, "Dereference panicked"), w, nil
 				}
 				rr.refs--
+				if fl, e := r.dbSync(w, i, lines[i], "DBDEREF "+hx(rr.hash.Bytes())); fl != nil || e != nil {
+					return fl, w, e
+				}
 			case "DBC":
 				if !protected(rr) {
 					r.dist("skipped-commit-dead-root")
@@ -557,6 +576,9 @@ func (r *runner) runSeq(lines []string) (fail *seqFail, w *world, err error) {
 					return mkfail("oracle", i, "Database.Commit failed: %s", g), w, nil
 				}
 				rr.persisted = true
+				if fl, e := r.dbSync(w, i, lines[i], "DBCOMMIT "+hx(rr.hash.Bytes())); fl != nil || e != nil {
+					return fl, w, e
+				}
 			case "R", "RF":
 				if !protected(rr) || (f[0] == "RF" && !rr.persisted) {
 					r.dist("skipped-reopen")
@@ -567,6 +589,9 @@ func (r *runner) runSeq(lines []string) (fail *seqFail, w *world, err error) {
 					w.db = trie.NewDatabase(w.disk)
 					for _, x := range w.roots {
 						x.refs = 0
+					}
+					if fl, e := r.dbSync(w, i, lines[i], "DBNEW"); fl != nil || e != nil {
+						return fl, w, e
 					}
 				}
 				var e error
@@ -611,6 +636,9 @@ func (r *runner) runSeq(lines []string) (fail *seqFail, w *world, err error) {
 			})
 			if g != "ok" {
 				return mkfail("oracle", i, "Cap failed: %s", g), w, nil
+			}
+			if fl, e := r.dbSync(w, i, lines[i], fmt.Sprintf("DBCAP %d", n)); fl != nil || e != nil {
+				return fl, w, e
 			}
 		case "CHK":
 			for j, rr := range w.roots {
@@ -782,4 +810,76 @@ func (w *world) checkRoot(rr *rootRec, db *trie.Database) (what string) {
 		return "Hash() of the reopened trie differs from its root"
 	}
 	return ""
+}
+
+// dbSync brings the Lean model of trie.Database up to date with what the real Database just did and
+// compares the complete reference-counting state: first the nodes the hasher inserted (they are the
+// hashes that are new at the tail of the flush-list), then the operation itself, then a dump of both.
+func (r *runner) dbSync(w *world, li int, line string, op string) (*seqFail, error) {
+	nodes, meta, mapped := w.db.VerifC13Dump()
+	if mapped != len(nodes) {
+		return &seqFail{kind: "oracle", line: li, what: fmt.Sprintf("line %d `%s`: trie.Database flush-list has %d nodes but the node map has %d", li, trunc(line, 80), len(nodes), mapped)}, nil
+	}
+	if r.drv == nil {
+		return nil, nil
+	}
+	if op == "DBNEW" {
+		w.known = map[common.Hash]bool{}
+	}
+	if op == "" {
+		for _, n := range nodes {
+			if !w.known[n.Hash] {
+				var ks []string
+				for _, k := range n.Kids {
+					ks = append(ks, hex.EncodeToString(k.Bytes()))
+				}
+				kk := "-"
+				if len(ks) > 0 {
+					kk = strings.Join(ks, ",")
+				}
+				if _, e := r.ask(fmt.Sprintf("DBINS %x %d %s", n.Hash.Bytes(), n.Size, kk)); e != nil {
+					return nil, e
+				}
+				r.dist("db-insert")
+			}
+		}
+	} else {
+		if _, e := r.ask(op); e != nil {
+			return nil, e
+		}
+	}
+	// canonical text of the Go state
+	var mem, mt, dk []string
+	w.known = map[common.Hash]bool{}
+	for _, n := range nodes {
+		mem = append(mem, fmt.Sprintf("%x:%d", n.Hash.Bytes(), n.Parents))
+		w.known[n.Hash] = true
+		if len(n.Ext) > 0 {
+			r.dist("db-node-with-external-children")
+		}
+	}
+	for h, c := range meta {
+		mt = append(mt, fmt.Sprintf("%x:%d", h.Bytes(), c))
+	}
+	sort.Strings(mt)
+	for _, k := range w.disk.Keys() {
+		if len(k) == 32 {
+			dk = append(dk, hex.EncodeToString(k))
+		}
+	}
+	sort.Strings(dk)
+	dg := func(parts []string) string {
+		return fmt.Sprintf("%d:%s", len(parts), hex.EncodeToString(crypto.Keccak256([]byte(strings.Join(parts, ","))))[:16])
+	}
+	g := fmt.Sprintf("mem=%s meta=%s disk=%s", dg(mem), dg(mt), dg(dk))
+	m, e := r.ask("DBDUMP")
+	if e != nil {
+		return nil, e
+	}
+	r.dist("db-state-compared")
+	if m != g {
+		full, _ := r.ask("DBDUMPFULL")
+		return &seqFail{kind: "correspondence", line: li, what: fmt.Sprintf("line %d `%s` (%s): trie.Database state go=%s lean=%s; go mem=%s meta=%s; lean %s", li, trunc(line, 80), op, g, m, trunc(strings.Join(mem, ","), 600), strings.Join(mt, ","), trunc(full, 900))}, nil
+	}
+	return nil, nil
 }
